@@ -23,6 +23,25 @@
 (*   WorkerRun      the worker delivers queued notifications one after the *)
 (*                  other without yielding; a callback parks in            *)
 (*                  __init_done.wait() while the gate is closed            *)
+(* The open gate for requests (AsyncProcessRequest), enabled when Calls # {}: *)
+(*   Park(c)        a call arrives while __open_ar is not ready: it is      *)
+(*                  linked to __open_ar (rawlink)                           *)
+(*   OpenComplete   _OnOpenComplete: __open_ar.set(True); the link          *)
+(*                  callbacks run LATER (one deferred task)                 *)
+(*   Timeout(c)     the ClientTimeoutSink above fires for a parked call:    *)
+(*                  Observable.Set(True) stores the value at once (Get()    *)
+(*                  sees it) but notifies subscribers from a SPAWNED        *)
+(*                  greenlet (another deferred task, behind those queued    *)
+(*                  earlier); the caller gets TimeoutError: the call is     *)
+(*                  complete                                                *)
+(*   RunDeferred    head of the FIFO of deferred tasks: the links of        *)
+(*                  __open_ar (_on_open_done for every parked call: skip it  *)
+(*                  if it timed out, else _AsyncProcessRequestImpl) or an   *)
+(*                  Observable notification                                 *)
+(* GateBySubscription = FALSE is base.py as it is (_on_open_done reads      *)
+(* timeout_event.Get()); TRUE is the variant that learns about the timeout  *)
+(* from a subscriber flag (kept as a counterexample generator: it dispatches *)
+(* a completed call, whose load is never given back: C04.conserved).        *)
 (* Join: ignored if the endpoint is in _servers, else __AddServer (factory  *)
 (* recorded in _servers, _OnServersChanged(added) -> _AddSink appends a new *)
 (* node unconditionally).  Leave: _servers.pop(ep, None), then             *)
@@ -33,7 +52,9 @@ EXTENDS BalancerAbs
 
 CONSTANTS Eps,        \* endpoint names
           MaxNotes,   \* number of notifications in a history
-          None
+          None,
+          Calls,      \* calls that may be parked behind the open ({} = gate for requests not modelled)
+          GateBySubscription
 
 VARIABLES T,         \* the provider's member set (the truth)
           opc,       \* _OpenImpl: "idle" | "spawned" | "inGet" | "sleep5" | "done"
@@ -48,9 +69,15 @@ VARIABLES T,         \* the provider's member set (the truth)
           wpc,       \* worker: "wait" | "ready" | "gate"
           nn,        \* nodes created so far
           notes,     \* notifications so far
+          oar,       \* __open_ar: "unset" | "set" (links pending) | "done"
+          cst,       \* call -> "new" | "parked" | "disp" | "skipped" | "deaddisp"
+          evset,     \* call -> its timeout event's value (what Get() returns)
+          flag,      \* call -> the subscriber's flag (GateBySubscription only)
+          dq,        \* FIFO of deferred tasks: <<"links", None>> | <<"obs", c>>
           abs, viol
 ivars == <<T, opc, snapE, inited, failed, servers, live, initDone, q, cur, wpc, nn, notes>>
-vars == <<ivars, abs, viol>>
+gvars == <<oar, cst, evset, flag, dq>>
+vars == <<ivars, gvars, abs, viol>>
 
 EndEv == [e |-> "End", hasL |-> 0, L |-> <<>>, neg |-> 0]
 
@@ -87,6 +114,7 @@ CallOpen ==
   /\ opc = "idle"
   /\ opc' = "spawned"
   /\ UNCHANGED <<T, snapE, inited, failed, servers, live, initDone, q, cur, wpc, nn, notes, abs, viol>>
+  /\ UNCHANGED gvars
 
 OpenStart(fail) ==
   /\ opc \in {"spawned", "sleep5"}
@@ -100,6 +128,7 @@ OpenStart(fail) ==
           /\ snapE' = T
           /\ UNCHANGED failed
   /\ UNCHANGED <<T, servers, live, initDone, q, cur, wpc, nn, notes, abs, viol>>
+  /\ UNCHANGED gvars
 
 LoadFinish(early) ==
   /\ opc = "inGet"
@@ -113,6 +142,7 @@ LoadFinish(early) ==
   /\ wpc' = IF wpc = "gate" THEN "ready" ELSE wpc
   /\ opc' = "done"
   /\ UNCHANGED <<T, snapE, inited, failed, q, cur, notes>>
+  /\ UNCHANGED gvars
 
 Notify(k, e) ==
   /\ notes < MaxNotes
@@ -124,6 +154,7 @@ Notify(k, e) ==
           /\ wpc' = IF wpc = "wait" THEN "ready" ELSE wpc
      ELSE UNCHANGED <<q, wpc>>
   /\ UNCHANGED <<opc, snapE, inited, failed, servers, live, initDone, cur, nn>>
+  /\ UNCHANGED gvars
 
 WorkerRun ==
   /\ wpc = "ready"
@@ -143,12 +174,47 @@ WorkerRun ==
                 /\ q' = <<>>
                 /\ wpc' = "wait"
   /\ UNCHANGED <<T, opc, snapE, inited, failed, initDone, notes>>
+  /\ UNCHANGED gvars
+
+\* ------------------------------------------------------------------ the open gate for requests
+Park(c) ==
+  /\ cst[c] = "new" /\ opc # "idle" /\ oar = "unset"
+  /\ cst' = [cst EXCEPT ![c] = "parked"]
+  /\ UNCHANGED <<ivars, oar, evset, flag, dq, abs, viol>>
+
+OpenComplete ==
+  /\ Calls # {} /\ opc = "done" /\ oar = "unset"
+  /\ oar' = "set"
+  /\ dq' = Append(dq, <<"links", None>>)
+  /\ UNCHANGED <<ivars, cst, evset, flag, abs, viol>>
+
+Timeout(c) ==
+  /\ cst[c] = "parked" /\ ~evset[c]
+  /\ evset' = [evset EXCEPT ![c] = TRUE]
+  /\ dq' = IF GateBySubscription THEN Append(dq, <<"obs", c>>) ELSE dq
+  /\ UNCHANGED <<ivars, oar, cst, flag, abs, viol>>
+
+RunDeferred ==
+  /\ dq # <<>>
+  /\ dq' = Tail(dq)
+  /\ IF Head(dq)[1] = "links"
+     THEN /\ oar' = "done"
+          /\ cst' = [c \in Calls |->
+                      IF cst[c] # "parked" THEN cst[c]
+                      ELSE IF (IF GateBySubscription THEN flag[c] ELSE evset[c]) THEN "skipped"
+                      ELSE IF evset[c] THEN "deaddisp" ELSE "disp"]
+          /\ UNCHANGED flag
+     ELSE /\ flag' = [flag EXCEPT ![Head(dq)[2]] = TRUE]
+          /\ UNCHANGED <<oar, cst>>
+  /\ UNCHANGED <<ivars, evset, abs, viol>>
 
 Init ==
   /\ T \in SUBSET Eps
   /\ opc = "idle" /\ snapE = {} /\ inited = FALSE /\ failed = FALSE
   /\ servers = {} /\ live = [e \in Eps |-> <<>>] /\ initDone = FALSE
   /\ q = <<>> /\ cur = None /\ wpc = "wait" /\ nn = 0 /\ notes = 0
+  /\ oar = "unset" /\ cst = [c \in Calls |-> "new"] /\ evset = [c \in Calls |-> FALSE]
+  /\ flag = [c \in Calls |-> FALSE] /\ dq = <<>>
   /\ abs = AInit0("heap", T)
   /\ viol = "ok"
 
@@ -158,6 +224,9 @@ Next ==
   \/ \E early \in BOOLEAN : LoadFinish(early)
   \/ \E k \in {"J", "L"}, e \in Eps : Notify(k, e)
   \/ WorkerRun
+  \/ \E c \in Calls : Park(c) \/ Timeout(c)
+  \/ OpenComplete
+  \/ RunDeferred
 
 Spec == Init /\ [][Next]_vars
 
@@ -170,6 +239,10 @@ NoViolation == viol = "ok"
 Quiescent == wpc # "ready" /\ opc # "spawned"
 Elig == FoldLeft(LAMBDA acc, e : acc \o [i \in DOMAIN live[e] |-> e], <<>>, SetToSeq(Eps))
 QuietOK == Quiescent => QCheck(abs, [e |-> "Q", hasE |-> 1, elig |-> Elig]) = "ok"
+
+\* A call that completed (timed out) while parked is never dispatched: its sink stack is
+\* already drained, so the load taken for it would never be given back (C04.conserved).
+NoDeadDispatch == \A c \in Calls : cst[c] # "deaddisp"
 
 Structural ==
   /\ abs.S = T
